@@ -158,7 +158,7 @@ def all_specs():
     return sorted(set(specs))
 
 
-REDUCED = ['ALA', 'A-GLY2', 'B-ALA', 'PO4#2', 'PO42', 'nter', 'A-cter', 'GLY45', '#1', 'B-45', 'A-PO4', 'ALA#3', 'GLY0', '#0']
+REDUCED = ['ALA', 'A-GLY2', 'B-ALA', 'PO4#2', 'PO42', 'nter', 'A-cter', 'GLY45', '#1', 'B-45', 'A-45', 'A-PO4', 'ALA#3', 'GLY0', '#0']
 
 
 def check_requests(system_spec, requests, kind, acc, sample=False):
@@ -383,6 +383,9 @@ def annotate_items(tier):
                 items.append((system_spec, [(spec, targets[0])], which))
             for first, second in itertools.product(REDUCED, repeat=2):
                 items.append((system_spec, [(first, targets[0]), (second, targets[1])], which))
+            # two requests for the SAME target that differ in one part only (each is reported on its own when it matches nothing)
+            for first, second in (('A-45', 'B-45'), ('B-45', 'A-45'), ('#1', '#0'), ('A-GLY2', 'B-GLY2'), ('A-45', 'A-46'), ('GLY45', 'ALA45')):
+                items.append((system_spec, [(first, targets[0]), (second, targets[0])], which))
             # unknown targets, only on specifications that match something in 'path'
             if 'path' in system_spec:
                 items.append((system_spec, [('ALA', 'NOPE')], which))
